@@ -22,6 +22,7 @@ import (
 	"time"
 
 	"honnef.co/go/tools/internal/renameio"
+	"honnef.co/go/tools/internal/verifhook"
 )
 
 // An ActionID is a cache action key, the hash of a complete description of a
@@ -402,7 +403,9 @@ func (c *DiskCache) putIndexEntry(id ActionID, out OutputID, size int64, allowVe
 	if err != nil {
 		return err
 	}
+	verifhook.Point("cache.index.opened")
 	_, err = f.WriteString(entry)
+	verifhook.Point("cache.index.written")
 	if err == nil {
 		// Truncate the file only *after* writing it.
 		// (This should be a no-op, but truncate just in case of previous corruption.)
@@ -467,9 +470,11 @@ func (c *DiskCache) put(id ActionID, file io.ReadSeeker, allowVerify bool) (Outp
 	h.Sum(out[:0])
 
 	// Copy to cached output file (if not already present).
+	verifhook.Point("cache.put.hashed")
 	if err := c.copyFile(file, out, size); err != nil {
 		return out, size, err
 	}
+	verifhook.Point("cache.put.copied")
 
 	// Add to cache index.
 	return out, size, c.putIndexEntry(id, out, size, allowVerify)
@@ -511,6 +516,7 @@ func (c *DiskCache) copyFile(file io.ReadSeeker, out OutputID, size int64) error
 		return err
 	}
 	defer f.Close()
+	verifhook.Point("cache.copy.opened")
 	if size == 0 {
 		// File now exists with correct size.
 		// Only one possible zero-length file, so contents are OK too.
@@ -533,6 +539,7 @@ func (c *DiskCache) copyFile(file io.ReadSeeker, out OutputID, size int64) error
 		f.Truncate(0)
 		return err
 	}
+	verifhook.Point("cache.copy.body")
 	// Check last byte before writing it; writing it will make the size match
 	// what other processes expect to find and might cause them to start
 	// using the file.
@@ -553,6 +560,7 @@ func (c *DiskCache) copyFile(file io.ReadSeeker, out OutputID, size int64) error
 		f.Truncate(0)
 		return err
 	}
+	verifhook.Point("cache.copy.lastbyte")
 	if err := f.Close(); err != nil {
 		// Data might not have been written,
 		// but file may look like it is the right size.
